@@ -154,10 +154,19 @@ func scenarioCases(quick, thorough int) func(string) int {
 	}
 }
 
-func cfgDefault(i int) world.Cfg { return world.DefaultCfg() }
+func cfgDefault(i int) world.Cfg {
+	c := world.DefaultCfg()
+	if i%3 == 1 {
+		c.MaxOrd = 12
+	}
+	return c
+}
 
 func cfgSlotHeavy(i int) world.Cfg {
 	c := world.DefaultCfg()
+	if i%3 == 1 {
+		c.MaxOrd = 12 // ordinals across the decimal-width boundary
+	}
 	if i%2 == 0 {
 		c.SlotHeavy = true
 	}
@@ -198,7 +207,7 @@ func init() {
 	register(&Check{Prop: "C07", Level: "exploration",
 		Rule:   "scenario family (both policies, several template revisions in flight); non-trivial = reconcile with an update-class delete or a pod create",
 		Assume: simAssumptions, Cases: scenarioCases(480, 24000),
-		Run:    scenarioFamily("C07", cfgDefault, mon.CheckC07, hasPodAction, nil),
+		Run:    scenarioFamily("C07", cfgSlotHeavy, mon.CheckC07, hasPodAction, nil),
 		Floors: []string{"update_deletes_checked", "created_below_partition", "created_at_or_above_partition"}})
 	register(&Check{Prop: "C14", Level: "exploration",
 		Rule:   "scenario family restricted to Parallel sets; non-trivial = error-free reconcile that had scaling work",
